@@ -8,9 +8,10 @@ namespace sim {
 
 struct OpResult {
   int op = -1;
-  int outcome = 0;        // 0 ok, 1 std::bad_alloc, 2 Clipper2Exception, 3 other exception, 4 skipped
+  int outcome = 0;        // 0 ok, 1 std::bad_alloc, 2 Clipper2Exception, 3 other exception, 4 skipped, 5 the harness callback threw (injected)
   uint64_t digest = 0;    // hash of everything the operation returned
   int64_t allocs = 0, nt_allocs = 0;   // in-scope allocation counts of this op
+  int64_t cbs = 0;                     // user-callback invocations of this op
   bool compared = false;  // C12: an oracle comparison was made
   bool nontrivial = false;// C12: compared Execute ran on a used / cleared / sharing object (or multi-path offset call)
   std::string vclass;     // non-empty: violation class found by an in-interpreter oracle
